@@ -47,10 +47,19 @@ func genAnyWorld(t *rapid.T) *World {
 type C16Case struct {
 	W     *World
 	Focus string
+	// More: further focus values checked against the same unfocused report
+	More []string `json:",omitempty"`
 }
 
 func genC16(t *rapid.T) *C16Case {
-	w := genAnyWorld(t)
+	var w *World
+	if rapid.IntRange(0, 2).Draw(t, "adminheavy") == 0 {
+		// several admin policies with different subjects: what is computed for one source may leak into another, and
+		// the focus changes which sources are computed at all
+		w = GenWorld(t, GenCfg{Admin: true, NoNamedRisk: true, MaxNP: 1})
+	} else {
+		w = genAnyWorld(t)
+	}
 	// a name shared by workloads of two namespaces is made likely
 	if len(w.Workloads) >= 2 && rapid.IntRange(0, 3).Draw(t, "share") == 0 {
 		a, b := &w.Workloads[0], &w.Workloads[1]
@@ -106,7 +115,11 @@ func genC16(t *rapid.T) *C16Case {
 			cands = append(cands, "ingress-controller")
 		}
 	}
-	return &C16Case{W: w, Focus: rapid.SampledFrom(cands).Draw(t, "focus")}
+	c := &C16Case{W: w, Focus: rapid.SampledFrom(cands).Draw(t, "focus")}
+	for i := 0; i < 2; i++ {
+		c.More = append(c.More, rapid.SampledFrom(cands).Draw(t, fmt.Sprintf("focus%d", i+2)))
+	}
+	return c
 }
 
 func checkC16(c *C16Case, st *VStats) *VFailure {
@@ -120,6 +133,16 @@ func checkC16(c *C16Case, st *VStats) *VFailure {
 		st.Class("skip: unfocused run returned an error")
 		return nil
 	}
+	for _, foc := range append([]string{c.Focus}, c.More...) {
+		if f := checkFocus(c, foc, dir, base, st); f != nil {
+			return f
+		}
+	}
+	return nil
+}
+
+func checkFocus(cc *C16Case, focus, dir string, base *ListRes, st *VStats) *VFailure {
+	c := &C16Case{W: cc.W, Focus: focus}
 	fr := RunList(dir, ListOpts{Focus: c.Focus})
 	if fr.Panic != nil {
 		return &VFailure{Msg: fmt.Sprintf("focused list panicked: %v", fr.Panic), Sig: "panic"}
@@ -186,7 +209,7 @@ func checkC16(c *C16Case, st *VStats) *VFailure {
 		st.Class("focus given as ns/name")
 	}
 	if len(exp) > 0 && len(exp) < len(base.Conns) {
-		st.NonTrivialCase(c)
+		st.NonTrivialCase(cc)
 	}
 	return nil
 }
